@@ -207,8 +207,9 @@ def run(chk):
   afd = repo.func('parse.AnnotationsFromDenotations')
   pairs = {}
   for x in walk_local(afd.node):
-    if isinstance(x, ast.For) and isinstance(x.iter, (ast.List, ast.Tuple)):
-      for e in x.iter.elts:
+    tbl = tables.resolve_table(afd, x.iter) if isinstance(x, ast.For) else None
+    if tbl is not None:
+      for e in tbl.elts:
         if isinstance(e, ast.Tuple) and len(e.elts) == 2 and \
             all(const_str(z) for z in e.elts):
           pairs[const_str(e.elts[0])] = const_str(e.elts[1])
@@ -248,7 +249,7 @@ def run(chk):
   # the annotation is generated from the rule as written, before the
   # rewrites that split and rename heads
   pf = FnView(repo, 'parse.ParseFile')
-  afd_calls = pf.calls('parse.AnnotationsFromDenotations')
+  afd_calls = pf.calls_reaching('parse.AnnotationsFromDenotations')
   rewrites = [(n, c) for n, c in pf.all_calls() if call_tail(c) == 'Rewrite']
   chk.ob('C18-R4', bool(afd_calls) and bool(rewrites) and not any(
       an in pf.cfg.reachable(rn) for an, _ in afd_calls for rn, _ in rewrites), None,
@@ -257,8 +258,15 @@ def run(chk):
          'aggregation rewrite renames the head to <P>_MultBodyAggAux and keeps '
          'the denotation keys, so the annotation lands on the auxiliary predicate',
          fi=pf.fi)
-  for n, c in afd_calls:
-    src = pf.assigned_from(arg_name(c, 0) or '')
-    ok = any(isinstance(x, ast.Call) and call_tail(x) == 'ParseRule' for x in src)
-    chk.ob('C18-R4', ok, None, 'annotations are derived from the rule ParseRule just returned',
-           'AnnotationsFromDenotations is applied to %s' % norm(c, 60), fi=pf.fi, node=c)
+  # wherever the direct call lives (ParseFile or a helper it was moved to)
+  hosts = []
+  for q, hfi in repo.by_name('parse').funcs.items():
+    if any(isinstance(x, ast.Call) and call_tail(x) == 'AnnotationsFromDenotations'
+           for x in walk_local(hfi.node)):
+      hosts.append(FnView(repo, 'parse.' + q))
+  for hv in hosts:
+    for n, c in hv.calls('parse.AnnotationsFromDenotations'):
+      src = hv.assigned_from(arg_name(c, 0) or '')
+      ok = any(isinstance(x, ast.Call) and call_tail(x) == 'ParseRule' for x in src)
+      chk.ob('C18-R4', ok, None, 'annotations are derived from the rule ParseRule just returned',
+             'AnnotationsFromDenotations is applied to %s' % norm(c, 60), fi=hv.fi, node=c)
